@@ -91,6 +91,16 @@ Definition reg_model (c : list pdecl * list (str * value)) : option (option str)
             dict(decls=[], config={'zzz': 1}),
             dict(decls=[d(name='a')], config={'a': {'__auto__': 'AutoA', 'args': {'a': {'z': 1, 'b': "q'"}, 'b': 1, 'verbose': True}}}),
             dict(decls=[d(name='a')], config={'a': {'__inst__': 'Plain', 'args': ['s', 1], 'kwargs': {'z': [1], 'a': 'x'}}}),
+            # parameter objects: collected ** and * arguments, a raw argument kept privately beside a processed public
+            # form, arguments dropped at their default when given in another spelling of the same value
+            dict(decls=[d(name='a')], config={'a': {'__auto__': 'AutoK', 'args': {'a': 1, 'offset': 5, 'name': "q'"}}}),
+            dict(decls=[d(name='a')], config={'a': {'__auto__': 'AutoK', 'args': {'a': 1}}}),
+            dict(decls=[d(name='a')], config={'a': {'__auto__': 'AutoV', 'args': {'steps': ['scale', 'clip', 1], 'mode': 'y'}}}),
+            dict(decls=[d(name='a')], config={'a': {'__auto__': 'AutoP', 'args': {'path': 'raw/vocab.txt', 'scale': 3}}}),
+            dict(decls=[d(name='a')], config={'a': [{'__auto__': 'AutoP', 'args': {'path': 'p'}}]}),
+            dict(decls=[d(name='a')], config={'a': {'__auto__': 'AutoD', 'args': {'x': 1, 'rate': 1, 'flag': True, 'opts': {'b': [2], 'a': 1}}}}),
+            dict(decls=[d(name='a')], config={'a': {'__auto__': 'AutoD', 'args': {'x': 1, 'rate': 1.0, 'flag': 1.0, 'opts': {'a': 1.0, 'b': [2]}}}}),
+            dict(decls=[d(name='a')], config={'a': {'__auto__': 'AutoD', 'args': {'x': 1, 'rate': 2, 'flag': 0, 'opts': {'a': 1}}}}),
             dict(decls=[d(name='a')], config={'a': {'k': {'__user__': 'U(1)'}, 'b': [1e16, 'é']}}),
         ]
 
@@ -135,6 +145,21 @@ Definition reg_model (c : list pdecl * list (str * value)) : option (option str)
         if 'repr' not in obs:
             return i, '(Some (Some (lit "<unexpected exception>")))'
         return i, '(Some %s)' % copt(obs['repr'], cstr)
+
+    def oracle(self, case, obs):
+        """required, persisted, untyped parameters that the configuration sets: the text by the frozen renderer"""
+        from . import oracle_frozen as fz
+        ds = case['decls']
+        if 'repr' not in obs or not ds or any(d['default'] is not None or d['ignore'] or d['dropdef'] or d['dtype'] != 'any'
+                                              or d['cfg'] not in case['config'] for d in ds):
+            return None
+        try:
+            want = fz.registry_text([(d, case['config'][d['cfg']], False) for d in ds])
+        except NotImplementedError:
+            return None
+        if obs['repr'] != want:
+            return f'the text of {case["config"]} is {obs["repr"]!r}; by the scheme of the release it is {want!r}'
+        return None
 
     def nontrivial(self, case, obs):
         return len(case['decls']) >= 2 or has_object(case['config'])
